@@ -173,7 +173,8 @@ def expiry_cases(texts, quick, rnd, scorers=("dummy",), depths=(10,)):
     for text in texts:
         for sc in scorers:
             for d in depths:
-                _, _, reads, _, _, _ = run_timed(text, 0, sc, d)
+                # count the clock reads of a run that CAN expire (a run with timeout=0 skips the reads of the deadline checks)
+                _, _, reads, _, _, _ = run_timed(text, 10 ** 9, sc, d)
                 pts = list(range(1, reads + 2))
                 if quick and len(pts) > 60:
                     pts = sorted(set(pts[:25] + pts[-10:] + rnd.sample(pts, 25)))
@@ -198,7 +199,9 @@ def run(ctx):
     groups = engine.engine_groups(ctx, depths=(0, 2), seeds=3 if ctx.quick else 8, scores=(0, 1), deadlines=True)
     engine.judge_engine_groups(ctx, groups, prop_stage="engine-deadline-traces")
     # the real grammar
-    texts = ["8", "8 8", "8 8 8", "tomorrow 8pm", "monday 9-5", "5.3.2020 for 3 days", "xyzzy", "", "#tag call mom"]
+    texts = ["8", "8 8", "8 8 8", "tomorrow 8pm", "monday 9-5", "5.3.2020 for 3 days", "xyzzy", "", "#tag call mom",
+             # values that only latent (one-argument) rules still expand: the un-anchored value must never be streamed
+             "monday", "morning", "may 5th", "on the 5th", "5.3.", "friday evening"]
     if not ctx.quick:
         texts += ["8 8 8 8", "at 8 on monday next week", "early morning tomorrow"]
     cases = expiry_cases(texts, ctx.quick, rnd, scorers=("dummy", "shipped") if not ctx.quick else ("dummy",),
